@@ -36,9 +36,9 @@ func init() {
 		"(*sync.RWMutex).RUnlock": func(fr *frame, a []value) value { return fr.p.unlock(fr, a[0], false) },
 		"(*sync.Once).Do":         intrOnceDo,
 		// WaitGroups are inert (single-threaded engine; nothing is ever outstanding)
-		"(*sync.WaitGroup).Wait": func(fr *frame, a []value) value { return nil },
-		"(*sync.WaitGroup).Add":  func(fr *frame, a []value) value { return nil },
-		"(*sync.WaitGroup).Done": func(fr *frame, a []value) value { return nil },
+		"(*sync.WaitGroup).Wait": func(fr *frame, a []value) value { fr.p.wgWait(a[0]); return nil },
+		"(*sync.WaitGroup).Add":  func(fr *frame, a []value) value { fr.p.wgAdd(a[0], int(asInt64(a[1]))); return nil },
+		"(*sync.WaitGroup).Done": func(fr *frame, a []value) value { fr.p.wgAdd(a[0], -1); return nil },
 
 		// time
 		"time.Now":                     intrTimeNow,
@@ -249,13 +249,26 @@ func (p *Path) lock(fr *frame, m value, write bool) value {
 			panic(pathAbort{"self-deadlock"})
 		}
 	}
+	if p.thr != nil {
+		// scheduling point; then wait while another thread holds the mutex
+		p.yield()
+		// (a read lock this thread already holds is re-entered without waiting)
+		for !(cur < 0 && !write) && !p.lockFree(mp, write) {
+			t := p.thr.cur
+			t.blockedOn, t.blockedWr = mp, write
+			p.yield()
+			t.blockedOn = nil
+		}
+	}
 	if p.eng.lockset != nil {
 		p.eng.lockset.onAcquire(p, mp, write)
 	}
 	if write {
 		p.held[mp] = 1
+		p.lockState[mp] = 1
 	} else {
 		p.held[mp] = cur - 1
+		p.lockState[mp]--
 	}
 	return nil
 }
@@ -268,10 +281,16 @@ func (p *Path) unlock(fr *frame, m value, write bool) value {
 	}
 	if write {
 		delete(p.held, mp)
-	} else if cur == -1 {
-		delete(p.held, mp)
+		delete(p.lockState, mp)
 	} else {
-		p.held[mp] = cur + 1
+		if cur == -1 {
+			delete(p.held, mp)
+		} else {
+			p.held[mp] = cur + 1
+		}
+		if p.lockState[mp]++; p.lockState[mp] == 0 {
+			delete(p.lockState, mp)
+		}
 	}
 	return nil
 }
